@@ -91,13 +91,13 @@ Dispatch(mime, params) ==
 \* ... and a text token that can be minified follows
 HtmlStartTagText(s) ==
   /\ s.kind \in ElementKinds /\ sub = 0 /\ s.body = "text"
-  /\ rawTag' = s.kind /\ rawType' = IF s.hasType THEN s.type ELSE <<>>
+  /\ rawTag' = s.kind /\ rawType' = IF s.hasType THEN NormMediatype(s.type) ELSE <<>>   \* captured after minify.Mediatype (4519604)
   /\ sub' = 1 /\ UNCHANGED <<pc, enters, outp, status>>
 \* ... and no text reaches a minifier: the element is empty (no text token) or its text holds a template
 \* (written as is).  The captured type must not survive into the next raw element.
 HtmlStartTagNoText(s) ==
   /\ s.kind \in ElementKinds /\ sub = 0 /\ s.body # "text"
-  /\ rawTag' = s.kind /\ rawType' = IF s.hasType THEN s.type ELSE <<>>
+  /\ rawTag' = s.kind /\ rawType' = IF s.hasType THEN NormMediatype(s.type) ELSE <<>>   \* captured after minify.Mediatype (4519604)
   /\ sub' = 2 /\ UNCHANGED <<pc, enters, outp, status>>
 \* html.go: TextToken while rawTagHash is Script/Style/Iframe
 HtmlRawText(s) ==
